@@ -15,7 +15,7 @@ package store
 // One completion per submission, in order, built only after Execute returned: every completion carries
 // either the store error or the results of its own transaction.
 //@ func Process
-//@ props C06 C12 C16
+//@ props C06 C12 C16 C01 C02 C03 C04 C05 C07 C08 C09 C10
 //@ nopanic C13
 //@ requires store != nil
 //@ elem ^sqes$ assume elem != nil && elem.Submission != nil && elem.Submission.Store != nil
